@@ -14,7 +14,13 @@ IriPtrCases == {Case("iriptr", "IRI", "top", "iri-pointer", IriPtr(0))}
                                     Case("iriptr", g, t, "iri-pointer-in-list", With(BaseV(g, 1), t, ListOf(<<I1, IriPtr(2), Note1>>)))}
                                    : t \in {"attachment", "actor", "object", "inbox", "first", "url"} \cap Terms(Props(g))}
                             : g \in {"Object", "Activity", "Actor", "OrderedCollection"}}
-AllCases == IriPtrCases \cup DeepCases \cup OneField(Gob) \cup UntypedOne(Gob) \cup AllTypeNames \cup Nested1 \cup Full(Gob) \cup TopLevel \cup Pairwise(PairTypes, Gob)
+\* counts beyond 31 and 63 bits (TLC integers stop at 2^31: the number travels as decimal text next to n = 0)
+BigInt(dec) == [k |-> "int", n |-> 0, s |-> dec]
+BigIntCases == {Case("bigint", g, t, "big-" \o d, With(BaseV(g, 1), t, BigInt(d)))
+                : g \in {"OrderedCollection", "CollectionPage", "OrderedCollectionPage", "Link"}, t \in {"totalItems", "startIndex", "width", "height"},
+                  d \in {"4294967296", "9223372036854775807", "9223372036854775808", "18446744073709551615"}}
+BigIntOK == {c \in BigIntCases : c.lab.t \in Terms(Props(c.lab.g))}
+AllCases == BigIntOK \cup IriPtrCases \cup DeepCases \cup OneField(Gob) \cup UntypedOne(Gob) \cup AllTypeNames \cup Nested1 \cup Full(Gob) \cup TopLevel \cup Pairwise(PairTypes, Gob)
 ModelUniverse == IF Tier = "thorough" THEN OneField(TRUE) \cup AllTypeNames \cup Nested1 \cup Full(TRUE) \cup TopLevel
                  ELSE {c \in OneField(TRUE) : c.lab.g \in {"Actor", "Question", "Place", "Link", "OrderedCollectionPage"}} \cup Nested1 \cup Full(TRUE) \cup TopLevel
 GenInit == phase = "gen" /\ codec = "json" /\ orig = NilItem /\ val = NilItem
